@@ -116,3 +116,12 @@ add("C12", "metamorphic pair monitor on the real hash function "
     "default-settings keys and all five parameter attributes.",
     "Realistic SI value domains per key; invalid setting combinations are "
     "skipped and counted.")
+add("C18", "registry monitor: all single-fault mutants of a valid model "
+    "module offered as object and as file, random register/deregister/load "
+    "sequences checked against a dictionary model with sys.path snapshots "
+    "around every load, file copy of shipped models compared bitwise, random "
+    "ancillary dictionaries",
+    "Held on the operations observed (~1400 faulty modules, ~750 registry "
+    "operations, ~1200 sys.path comparisons per quick run).",
+    "Model error = subclass of ModelError; unimportable = missing file / "
+    "missing module / missing name / syntax error; unique stems per file.")
